@@ -38,8 +38,14 @@ def main():
         results = []
         for spec in req["calls"]:
             try:
-                ag.run_call(qv, spec)
-                results.append(None)
+                res, _ = ag.run_call(qv, spec)
+                if req.get("digest"):
+                    import hashlib
+                    h = hashlib.blake2b(repr([(sorted(r.state.items(), key=repr), r.value) for r in res]).encode(),
+                                        digest_size=8).hexdigest()
+                    results.append({"ok": h})
+                else:
+                    results.append(None)
             except common.Violation as v:
                 results.append({"kind": v.kind, "detail": v.detail})
             except BaseException as e:  # noqa
